@@ -1,5 +1,5 @@
 CONSTANTS
-  N = 3
+  N = 2
   Buf = 1
   Max = 1
   W = 2
